@@ -412,3 +412,28 @@ def _o_enc(s):
 
 
 _lib.UF_ORACLES.update({"idna_dec_status": _o_dec_status, "dec_idna": _o_dec, "idna_encodable": _o_enc_ok, "enc_idna": _o_enc})
+
+
+# ---------------------------------------------------------------------------------------------
+# a | b for two symbolic non-negative ints: a + b - (a & b), with (a & b) a fresh n, 0 <= n <= min(a, b), and the
+# instantiated lemma "a multiple of 2^k and b < 2^k (or vice versa) => a & b == 0" for k = 1..16.
+# Sound over-approximation (n is otherwise unconstrained); exact whenever the operands occupy disjoint bit ranges.
+
+_orig_binop = _lib.binop
+
+
+def _binop(it, op, a, b):
+    import ast as _ast
+
+    if isinstance(op, _ast.BitOr) and isinstance(a, SInt) and isinstance(b, SInt) and a.concrete() is None and b.concrete() is None:
+        it.ex.note("assumed", "bitwise | of two symbolic ints: operands are non-negative; modelled as a + b - (a & b) with disjoint-bit-range lemmas (k <= 16)")
+        n = it.fresh("int", "and")
+        it.ex.assume(z3.And(n.t >= 0, n.t <= a.t, n.t <= b.t))
+        for k in range(1, 17):
+            p = 1 << k
+            it.ex.assume(z3.Implies(z3.Or(z3.And(a.t % p == 0, b.t >= 0, b.t < p), z3.And(b.t % p == 0, a.t >= 0, a.t < p)), n.t == 0))
+        return SInt(a.t + b.t - n.t)
+    return _orig_binop(it, op, a, b)
+
+
+_lib.binop = _binop
